@@ -8,8 +8,10 @@
           37450 or a chunk list; errors of read_metadata / read_chunks re-wrapped as InvalidData;
           duplicates InvalidData) and read_intervals, then the optional trailing u64 (a read_exact
           whose UnexpectedEof is None)
-   fai    noodles-fasta/src/fai/io/reader.rs read_index: BufRead::read_line (read_until(LF) + UTF-8
-          validation of what was appended) until 0, LF / CRLF popped, parse_record
+   fai    noodles-fasta/src/fai/io/reader.rs read_index (after /repo 24986d3: names are bytes):
+          read_line_bytes = read_until(LF) until 0, LF / CRLF popped, parse_record_bytes; the crai
+          text loop still uses BufRead::read_line (read_until(LF) + UTF-8 validation of what was
+          appended): the flag [utf8]
    BCF    noodles-bcf/src/io/reader/record.rs read_record: read_exact_or_eof(4) (0 bytes or
           l_shared = 0: Ok(0)), read_u32_le, read_buf_exact = take(l_shared).read_to_end, the site
           indexer (parameter [site_ok]), take(l_indiv).read_to_end
@@ -82,12 +84,12 @@ Definition p_bai : prog Layout.bai_index :=
 
 (* ---- fai: the line loop *)
 (* one read_record: None = read_line returned 0 *)
-Definition g_text_record {A : Type} (parse : list N -> option A) : prog (option A) :=
+Definition g_text_record {A : Type} (utf8 : bool) (parse : list N -> option A) : prog (option A) :=
   Until LF (fun l =>
     match l with
     | [] => Ret None
     | _ =>
-        if TextIndex.utf8_valid l then
+        if negb utf8 || TextIndex.utf8_valid l then
           match parse (strip_eol l) with
           | Some r => Ret (Some r)
           | None => Fail InvalidData
@@ -95,12 +97,14 @@ Definition g_text_record {A : Type} (parse : list N -> option A) : prog (option 
         else Fail InvalidData
     end).
 
-Definition p_text_index {A : Type} (fuel : nat) (parse : list N -> option A) : prog (list A) :=
-  p_loop fuel (g_text_record parse).
+Definition p_text_index {A : Type} (utf8 : bool) (fuel : nat) (parse : list N -> option A) : prog (list A) :=
+  p_loop fuel (g_text_record utf8 parse).
 
-Definition p_fai (fuel : nat) : prog (list TextIndex.fai_rec) := p_text_index fuel TextIndex.parse_fai_rec.
+Definition p_fai (fuel : nat) : prog (list TextIndex.fai_rec) :=
+  p_text_index false fuel TextIndex.parse_fai_rec.
 (* crai: the same loop over the GzDecoder's output (the gzip layer is outside the model) *)
-Definition p_crai_text (fuel : nat) : prog (list TextIndex.crai_rec) := p_text_index fuel TextIndex.parse_crai_rec.
+Definition p_crai_text (fuel : nat) : prog (list TextIndex.crai_rec) :=
+  p_text_index true fuel TextIndex.parse_crai_rec.
 
 (* ---- BCF record *)
 Section BCF.
